@@ -157,11 +157,17 @@ def has_kind(e, kinds):
     return e["k"] in kinds or any(has_kind(c, kinds) for c in e["s"])
 
 
+CAPTURED = []
+
+
 def build(sp, e, shape, cplx):
     P = sp.prox
     k = e["k"]
     n = expr_size(e)
-    arr = lambda v: npvec(v, cplx or is_cplx(v)).reshape(shape)
+    def arr(v):
+        a = npvec(v, cplx or is_cplx(v)).reshape(shape)
+        CAPTURED.append((a, a.copy()))
+        return a
     if k == "L1Reg":
         return P.L1Reg(shape, float(fr(e["q"][1])))
     if k == "L2Reg":
@@ -221,13 +227,19 @@ def check_eval(sp, st):
             with warnings.catch_warnings():
                 warnings.simplefilter("ignore")
                 try:
+                    del CAPTURED[:]
                     P = build(sp, e, shape, cplx)
                     x = P(al, yv)
+                    x_again = P(al, yv)
                 except Exception as ex:
                     res.append((["C11"], "exception", "%s shape %s %s input: P(alpha, y) raised %r / %r" % (summary(e), shape, "complex" if cplx else "real", ex, ex.__cause__)))
                     continue
             if not np.array_equal(yv, y0):
                 res.append((["C02", "C11"], "input_mutated", "%s modified its input" % summary(e)))
+            if any(not np.array_equal(a, a0) for a, a0 in CAPTURED):
+                res.append((["C02"], "captured_mutated", "%s modified an array it was built from (bias / z)" % summary(e)))
+            if np.shape(x_again) != np.shape(x) or not np.array_equal(x_again, x):
+                res.append((["C02"], "nondeterministic", "%s: second call with an equal input gives a different result" % summary(e)))
             if tuple(np.shape(x)) != tuple(shape):
                 res.append((["C11"], "shape", "%s: result shape %s, input shape %s" % (summary(e), np.shape(x), shape)))
                 continue
